@@ -162,23 +162,23 @@ Proof.
 Qed.
 
 (* the Polars expression of a vocabulary aggregate evaluates, over the rows of a group, to the Pandas-flavoured aggregate *)
-Lemma agg_plx_value e : agg_vocab e = true ->
-  exists x, (forall ext, tr_expr ext e = Ok x) /\
-    forall cs grp pos, (uses_one e = true -> forall r, In r grp -> get cs r one_col = qn (inject_Z 1)) ->
+Lemma agg_plx_value one e : agg_vocab e = true ->
+  exists x, (forall ext, tr_expr one ext e = Ok x) /\
+    forall cs grp pos, (uses_one e = true -> forall r, In r grp -> get cs r one = qn (inject_Z 1)) ->
       plx_at cs grp pos x = agg_fn fl_pandas (agg_name e) (map (argval e cs) grp).
 Proof.
   destruct e as [c|v|op [|a [|b rest]]]; cbn [agg_vocab]; try discriminate; intros V.
   - (* size() *)
     split_mem V; try discriminate.
-    + exists (PAgg ASum (PCol one_col)). split; [intros ext; destruct ext; reflexivity|].
+    + exists (PAgg ASum (PCol one)). split; [intros ext; destruct ext; reflexivity|].
       intros cs grp pos O. cbn [plx_at agg_name argval pl_agg].
-      rewrite (map_nth_seq (fun r => get cs r one_col) grp).
-      rewrite (map_ext_in (fun r => get cs r one_col) (fun _ => qn (inject_Z 1)) grp) by (intros r I; apply O; [reflexivity|exact I]).
+      rewrite (map_nth_seq (fun r => get cs r one) grp).
+      rewrite (map_ext_in (fun r => get cs r one) (fun _ => qn (inject_Z 1)) grp) by (intros r I; apply O; [reflexivity|exact I]).
       apply size_value.
-    + exists (PAgg ASum (PCol one_col)). split; [intros ext; destruct ext; reflexivity|].
+    + exists (PAgg ASum (PCol one)). split; [intros ext; destruct ext; reflexivity|].
       intros cs grp pos O. cbn [plx_at agg_name argval pl_agg].
-      rewrite (map_nth_seq (fun r => get cs r one_col) grp).
-      rewrite (map_ext_in (fun r => get cs r one_col) (fun _ => qn (inject_Z 1)) grp) by (intros r I; apply O; [reflexivity|exact I]).
+      rewrite (map_nth_seq (fun r => get cs r one) grp).
+      rewrite (map_ext_in (fun r => get cs r one) (fun _ => qn (inject_Z 1)) grp) by (intros r I; apply O; [reflexivity|exact I]).
       rewrite size_value_us. apply size_value.
   - apply andb_true_iff in V. destruct V as [V S]. destruct a as [c| |]; try discriminate.
     split_mem V; try discriminate.
@@ -200,15 +200,15 @@ Proof.
       unfold count_expr. cbn [plx_at agg_name pl_agg lit_int].
       transitivity (qn (qsum (nums (map count_cell (map (fun r => get cs r c) grp))))); [|apply count_value].
       rewrite map_map. f_equal. f_equal. f_equal. apply (map_nth_seq (fun r => count_cell (get cs r c)) grp).
-    + exists (PAgg ASum (PCol one_col)). split; [intros ext; destruct ext; reflexivity|]. intros cs grp pos O.
+    + exists (PAgg ASum (PCol one)). split; [intros ext; destruct ext; reflexivity|]. intros cs grp pos O.
       cbn [plx_at agg_name argval pl_agg eval_expr].
-      rewrite (map_nth_seq (fun r => get cs r one_col) grp).
-      rewrite (map_ext_in (fun r => get cs r one_col) (fun _ => qn (inject_Z 1)) grp) by (intros r I; apply O; [reflexivity|exact I]).
+      rewrite (map_nth_seq (fun r => get cs r one) grp).
+      rewrite (map_ext_in (fun r => get cs r one) (fun _ => qn (inject_Z 1)) grp) by (intros r I; apply O; [reflexivity|exact I]).
       rewrite size_value_any. apply size_value.
 Qed.
 
 (* vocabulary aggregates are never "promoted" and need the constant-one column exactly when they count rows *)
-Lemma agg_vocab_promote prefix n e : agg_vocab e = true -> promote prefix n e = None.
+Lemma agg_vocab_promote prefix n names e : agg_vocab e = true -> promote prefix n names e = None.
 Proof.
   destruct e as [c|v|op [|a [|b rest]]]; cbn [agg_vocab promote]; try discriminate; try reflexivity.
   intros V. apply andb_true_iff in V. destruct V as [_ S]. destruct a; try discriminate; reflexivity.
@@ -262,9 +262,8 @@ Lemma temps_row_len t temps r : List.length r = List.length (cols t) ->
 Proof. intros L. apply wc_row_len. exact L. Qed.
 
 Lemma temps_row_get_user t temps r c : lit_temps temps -> List.length r = List.length (cols t) ->
-  (forall k, In k (map fst temps) -> is_reserved k = true) -> is_reserved c = false ->
+  ~ In c (map fst temps) ->
   get (ext_cols (cols t) (map fst temps)) (temps_row t temps r) c = get (cols t) r c.
 Proof.
-  intros LT L R Nc. rewrite temps_row_get by assumption. rewrite last_for_None; [reflexivity|].
-  intros I. rewrite (R c I) in Nc. discriminate.
+  intros LT L Nc. rewrite temps_row_get by assumption. rewrite last_for_None; [reflexivity|exact Nc].
 Qed.
